@@ -65,6 +65,8 @@ def kind : Step → String
   | .bsu _ _ _ => "bsu"
   | .sstTmp _ _ => "ssttmp"
   | .sstRename _ => "sstren"
+  | .sfmTmp _ _ => "sfmtmp"
+  | .sfmRename _ => "sfmren"
   | .sfmTrunc _ => "sfmtrunc"
   | .sfmWrite _ _ => "sfmwrite"
   | .segmetaAppend _ _ => "segmeta"
